@@ -117,7 +117,7 @@ def main():
     c.cov["evaluations"] = len(events)
 
     # ---- TLC judges
-    symcamp.judge(c, "SymtabTrace.tla", "SymtabTrace.cfg", events)
+    symcamp.judge(c, [("SymtabTrace.tla", "SymtabTrace.cfg", events, 400)])
 
     nontrivial = set()
     kinds = {}
